@@ -19,7 +19,9 @@ RULE = (
     "entangled with a partner); rejection of non-Clifford / non-unitary / wrongly shaped matrices (generated). Non-trivial = "
     "word whose product is neither a Pauli nor the identity and whose simplified form differs from the input."
 )
-ASSUMPTIONS = ["reference 2x2 gate matrices from vf/ref/statevec.py; list order = matrix product (the last listed gate acts first)"]
+REQUIRED_CLASSES = {"reject": ["T", "haar", "near", "nonunitary", "scaled", "zero", "shape"]}
+ASSUMPTIONS = ["a unitary at a rotation angle >= 1e-3 rad from every library member counts as non-Clifford (graphiq's own entrywise comparison tolerates ~1e-5)",
+               "reference 2x2 gate matrices from vf/ref/statevec.py; list order = matrix product (the last listed gate acts first)"]
 
 NAME = {"Identity": "I", "Hadamard": "H", "Phase": "P", "PhaseDagger": "Pdag", "SigmaX": "X", "SigmaY": "Y", "SigmaZ": "Z"}
 
@@ -108,6 +110,15 @@ def check_reject(case, sub="reject"):
         m, _ = np.linalg.qr(a)
         if any(equiv(m, x) for x in (mat(e) for e in lib())):
             return Info(False, ["accidental_clifford"])
+    elif kind == "near":
+        # a library member followed by a rotation by 1e-3 .. 0.3 rad about a random axis, times a random global phase:
+        # unitary, but not a Clifford (the library's own entrywise comparison tolerates about 1e-5)
+        th = [1e-3, 2e-3, 5e-3, 1e-2, 3e-2, 0.1, 0.3][case["seed"] % 7]
+        ax = rng.normal(size=3)
+        ax = ax / np.linalg.norm(ax)
+        gen = ax[0] * sv.GATES["X"] + ax[1] * sv.GATES["Y"] + ax[2] * sv.GATES["Z"]
+        rot = np.cos(th / 2) * np.eye(2) - 1j * np.sin(th / 2) * gen
+        m = np.exp(1j * rng.uniform(0, 2 * np.pi)) * (mat(lib()[(case["seed"] // 7) % 24]) @ rot)
     elif kind == "nonunitary":
         m = rng.normal(size=(2, 2)) + 1j * rng.normal(size=(2, 2))
     elif kind == "scaled":
@@ -187,7 +198,7 @@ def enum_backend(tier, seed):
 
 
 def strat_reject(tier):
-    return st.fixed_dictionaries({"kind": st.sampled_from(["T", "haar", "haar", "nonunitary", "scaled", "zero", "shape"]), "seed": st.integers(0, 10**6)})
+    return st.fixed_dictionaries({"kind": st.sampled_from(["T", "haar", "haar", "near", "near", "nonunitary", "scaled", "zero", "shape"]), "seed": st.integers(0, 10**6)})
 
 
 SUBS = [
